@@ -551,10 +551,10 @@ def explore(prog, op, shapeA, shapeB, cfg, want, max_paths=20000, order_mode='in
     work = [[]]
     t0 = time.time()
     known_seen, n_new = set(), 0
+    models = RbxModels()
+    models.order_mode = order_mode
     while work:
         dec = work.pop()
-        models = RbxModels()
-        models.order_mode = order_mode
         ex = Exec(prog, models, dec, stats)
         ex.world = World()
         r = OpRunner(H, ex, cfg, want)
